@@ -298,7 +298,7 @@ func judgeCommon(r *vrun.Run, sc scen, s snapshot, settledObserved bool, extra m
 	wit := func() map[string]any {
 		w := map[string]any{"scenario": sc, "result": errStr(s.Res), "result_class": cls, "runner_returned_at_ns": s.RetNs,
 			"action_invoked": s.ActionInvoked, "action_returned_by_then": s.ActionReturned, "action_observed_signal": s.Observed,
-			"deterministic": sc.Part == "bubble"}
+			"deterministic": sc.Part == "bubble" && (sc.Kind == kWaitOnly || sc.D() != sc.E())}
 		for k, v := range extra {
 			w[k] = v
 		}
@@ -387,7 +387,7 @@ func parentClass(sc scen) string {
 
 func main() {
 	r := vrun.Start("C12", "exploration")
-	r.Rule("bubble sweep: one case = one runner call in its own synctest bubble, identified by (runner, action kind, parent-context state, d−T in ns, T, δ, ε); d−T covers every µs in [−50 µs,+50 µs] (quick: 5 µs steps beyond, thorough: every µs of ±2 ms, repeated with fresh T/δ/ε). " +
+	r.Rule("bubble sweep: one case = one runner call in its own synctest bubble, identified by (runner, action kind, parent-context state, d−T in ns, T, δ, ε); d−T covers every µs of [−2 ms,+2 ms] (4 001 points; thorough: repeated 40× with fresh T/δ/ε), the point d = T is replicated 400× (thorough 10 000×) because there the scheduler decides. " +
 		"real-time: same scenario tuple + busy-goroutine level around a real 5 ms deadline. Parallelise: generated (argument count 0..200, element type, duplicates, result type, per-argument delay/value/error script), in bubbles and in real time. " +
 		"cancel store: one case = one round (registrars × functions, cancellers × calls, Len readers). " +
 		"non-trivial: runner case — the action's completion instant lies within 50 µs of a signal instant (deadline or parent cancellation) or the parent is cancelled; Parallelise — ≥ 2 arguments and (an error or duplicates or distinct completion instants); " +
@@ -421,8 +421,8 @@ func main() {
 	part("store", func() { runStore(r) })
 	part("realtime", func() { rt.judgeStragglers(r) })
 
-	r.Require("sweep_cases", int64(r.Pick(20_000, 400_000)))
-	r.Require("sweep_equal_instant_cases", 30)
+	r.Require("sweep_cases", int64(r.Pick(150_000, 5_000_000)))
+	r.Require("sweep_equal_instant_cases", 10_000)
 	r.Require("sweep_results_own", 5_000)
 	r.Require("sweep_results_timeout", 5_000)
 	r.Require("sweep_results_cancelled", 1_000)
